@@ -330,3 +330,26 @@ Proof.
     + inversion D. reflexivity.
   - split; [intros I; apply existsb_zero in I; congruence|]. intros _. inversion D. reflexivity.
 Qed.
+
+(* a version 4 request with another command than CONNECT is answered "request rejected" (91), byte-exact *)
+Theorem client_v4_rejects_other_commands r cmd a port rest :
+  v4_read_request r = Done (cmd, a, port) rest -> cmd <> 1 ->
+  client_dialog (4 :: r) = Some [0; 91; 0; 0; 0; 0; 0; 0].
+Proof.
+  intros H C. cbn [client_dialog]. rewrite H. destruct (N.eqb_spec cmd 1); [contradiction|reflexivity].
+Qed.
+
+(* the target the tunnel is asked for is the request's address, byte for byte (a SOCKS4a / SOCKS5 domain name is passed
+   on as it was received), and its port *)
+Theorem client_connect_target_v4a r dom port rest :
+  v4_read_request r = Done (1, ADom dom, port) rest ->
+  client_connect (4 :: r) = Some ([0; 90; 0; 0; 0; 0; 0; 0], dom, port).
+Proof. intros H. cbn [client_connect]. rewrite H. reflexivity. Qed.
+
+Theorem client_connect_target_v5 r ms rest dom port rest' :
+  v5_read_auth_methods r = Done ms rest -> In 0 ms ->
+  v5_read_request rest = Done (1, ADom dom, port) rest' ->
+  client_connect (5 :: r) = Some ([5; 0; 5; 0; 0; 1; 0; 0; 0; 0; 0; 0], dom, port).
+Proof.
+  intros H I R. cbn [client_connect]. rewrite H. apply existsb_zero in I. rewrite I, R. reflexivity.
+Qed.
